@@ -34,7 +34,12 @@ def kani_obligation(run, crate, overlays, harnesses, rel_file, modname, harness_
         def rp(model, path, vals=vals, h=h):
             if vals is None:
                 return {'mode': 'native', 'reproduced': None, 'error': 'kani concrete playback produced no values: ' + str(info)}
-            return kani.native_replay(crate, rel_file, modname, harness_file, h, vals)
+            last = None
+            for cand in vals[:8]:          # one candidate per failed check / satisfied cover: the first that panics natively is the counterexample
+                last = kani.native_replay(crate, rel_file, modname, harness_file, h, cand)
+                if last.get('reproduced'):
+                    return last
+            return last
         run.reached(h)
         if run.counterexample(f'kani:{h}', None, rp, None, detail={'failed_checks': r.get('failed'), 'summary': r.get('summary')}, soft=True) is None:
             unconfirmed.append(h)
